@@ -668,13 +668,25 @@ def to_symbolic(interp, lst, shape):
     return VList(None, shape=shape, arrs=arrs, length=z3.IntVal(len(lst.items)))
 
 
+def _writeback(interp, lst, node=None):
+    """the list lives inside a dict (dict of lists): store its new value back under its key"""
+    ow = getattr(lst, "owner", None)
+    if ow is not None:
+        d, key = ow
+        dict_set(interp, d, key, lst, node)
+
+
 def list_append(interp, lst, v):
+    if getattr(lst, "owner", None) is not None and lst.concrete:
+        lst2 = to_symbolic(interp, lst, lst.owner[0].shape[1] if isinstance(lst.owner[0].shape, tuple) else shape_of(v))
+        lst.items, lst.shape, lst.arrs, lst.length = None, lst2.shape, lst2.arrs, lst2.length
     if lst.concrete:
         lst.items.append(v)
         return
     leaves = flatten(coerce(interp, v, lst.shape), lst.shape)
     lst.arrs = [z3.Store(a, lst.length, l) for a, l in zip(lst.arrs, leaves)]
     lst.length = lst.length + 1
+    _writeback(interp, lst)
 
 
 def _qrange(k, new):
@@ -798,7 +810,13 @@ def dict_get(interp, d, key, node):
     kz = key_z(key)
     if not interp.spec and not interp.branch(z3.Select(d.present, kz), "dictkey"):
         interp.raise_("KeyError", node=node)
-    return unflatten(d.shape, [z3.Select(a, kz) for a in d.arrs])
+    v = unflatten(d.shape, [z3.Select(a, kz) for a in d.arrs])
+    if isinstance(v, VList):
+        interp.ctx.assume(v.length >= 0, "list:length>=0")      # whatever list is stored there
+    if isinstance(v, VList) and not interp.spec:
+        # a list stored in a dict is an object: in-place changes of what is handed out are changes of the stored value
+        v.owner = (d, key)
+    return v
 
 
 def dict_set(interp, d, key, v, node):
@@ -1187,6 +1205,8 @@ def _dict_setdefault(it, a, k, n):
     if it.branch(dict_has(it, d, key), "dict.setdefault"):
         return dict_get(it, d, key, n)
     dict_set(it, d, key, default, n)
+    if isinstance(default, VList) and not d.concrete:
+        default.owner = (d, key)       # the stored list object itself is returned
     return default
 
 
